@@ -317,7 +317,10 @@ def _run_site(site):
                 tag = isel + " <- " + s
                 if got == "skip":
                     continue
-                if got is None:
+                if got is None and p != "G":
+                    # the plain Gopher view shows the item (checked below for G itself): view p's root listing lacks it
+                    out.append((p, tag, [{"ev": "nosearchitem", "p": p, "s": s, "isel": isel}], [{"rq": "root listing of " + p}]))
+                elif got is None:
                     out.append((p, tag, None, None))
                 else:
                     out.append((p, tag, [got[0]], [got[1]]))
